@@ -163,6 +163,7 @@ RefNode(v, path, scope) ==
 Error == [k |-> "error"]
 AnyOut == [k |-> "any"]
 NotWf == [k |-> "notwf"]
+OkAny == [k |-> "okany"]      \* output whose reading the specification does not predict
 (* dec: how the bytes are to be decoded -- "label" = as the declaration says *)
 DocOut(r, enc, ver, dec) == [k |-> "doc", root |-> r, enc |-> enc, ver |-> ver, dec |-> dec, lenient |-> FALSE]
 
@@ -380,7 +381,8 @@ Read(D, o) ==
           ELSE IF o.enc = "utf16" THEN NotWf                        \* UTF-8 bytes under a UTF-16 label
           ELSE IF "ns-uri-unescaped" \in D /\ \E j \in 1..Len(o.evs) : o.evs[j].e = "start" /\ o.evs[j].duri = "uamp"
                  THEN NotWf
-          ELSE IF TreeHas(top[1], {"ctrl"}) THEN NotWf
+          \* a forbidden character written raw; under a Latin-1 label its UTF-8 bytes may read as other characters
+          ELSE IF TreeHas(top[1], {"ctrl"}) THEN (IF o.enc = "latin1" THEN OkAny ELSE NotWf)
           ELSE DocOut(top[1], o.enc, o.ver, IF o.enc = "latin1" THEN "utf8bytes" ELSE "label")
 
 Imp(D, v) == Read(D, Write(D, v))
@@ -408,8 +410,8 @@ TagDoc(v) ==
 (* root).  Every choice that is not the plain default names a FEATURE; a      *)
 (* feature is usable when it is in CoreFeat (free) or in RareFeat (one unit   *)
 (* of the budget MaxRare).                                                    *)
-VARIABLES stack, rare, nodes, phase, doc, bad
-vars == << stack, rare, nodes, phase, doc, bad >>
+VARIABLES stack, rare, nodes, phase, doc, bad, used      \* bad, used: the generator's own book-keeping
+vars == << stack, rare, nodes, phase, doc, bad, used >>
 
 NsChoices == { "none", "d1", "d2", "damp", "p1", "p2", "q1", "q2", "pamp" }
 NsTup(p, u) == Tup(<< Fld("prefix", Str(p)), Fld("uri", Str(u)) >>)
@@ -510,6 +512,8 @@ Bottom == Frame("-", "none", NoAttr, "std", {})
 Top == stack[Len(stack)]
 
 Init == /\ stack = << Bottom >> /\ rare = 0 /\ nodes = 0 /\ phase = "build" /\ doc = Null /\ bad = FALSE
+        /\ used = {}
+Use(fs) == used' = used \cup (fs \ {"-"})
 
 CanAccept == IF Len(stack) = 1 THEN Len(Top.kids) = 0 ELSE Len(Top.kids) < MaxKids
 PutKid(v) == [stack EXCEPT ![Len(stack)].kids = Append(@, v)]
@@ -532,6 +536,7 @@ Open(ch, cost) ==
      /\ stack' = Append(stack, Frame(ch.nm, ch.nsc, ch.ac, ch.ord, pfx))
      /\ rare' = rare + cost /\ nodes' = nodes + 1
      /\ bad' = (bad \/ ch.ac.k \in AttrBadKinds)
+     /\ Use({ OpenFeats(ch)[j] : j \in 1..4 })
      /\ UNCHANGED << phase, doc >>
 
 Text(form, c) ==
@@ -540,7 +545,7 @@ Text(form, c) ==
   IN /\ phase = "build" /\ Len(stack) > 1 /\ CanAccept /\ nodes < MaxNodes
      /\ Usable(f1) /\ Usable(f2) /\ rare + Cost(f1) + Cost(f2) <= MaxRare
      /\ stack' = PutKid(IF form = "bare" THEN Str(c) ELSE Tup(<< Fld("text", Str(c)) >>))
-     /\ rare' = rare + Cost(f1) + Cost(f2) /\ nodes' = nodes + 1
+     /\ rare' = rare + Cost(f1) + Cost(f2) /\ nodes' = nodes + 1 /\ Use({f1, f2})
      /\ UNCHANGED << phase, doc, bad >>
 
 BadKid(kd) ==
@@ -548,7 +553,7 @@ BadKid(kd) ==
   IN /\ phase = "build" /\ Len(stack) > 1 /\ CanAccept /\ nodes < MaxNodes
      /\ Usable(f) /\ rare + Cost(f) <= MaxRare
      /\ stack' = PutKid(BadNode(kd))
-     /\ rare' = rare + Cost(f) /\ nodes' = nodes + 1 /\ bad' = TRUE
+     /\ rare' = rare + Cost(f) /\ nodes' = nodes + 1 /\ bad' = TRUE /\ Use({f})
      /\ UNCHANGED << phase, doc >>
 
 Built(fr, form) ==
@@ -567,7 +572,7 @@ Close(form) ==
      /\ IF Len(Top.kids) = 0 THEN form \in KidForms ELSE form = "list"
      /\ Usable(f) /\ rare + Cost(f) <= MaxRare
      /\ stack' = [SubSeq(stack, 1, n - 1) EXCEPT ![n - 1].kids = Append(@, Built(stack[n], form))]
-     /\ rare' = rare + Cost(f) /\ bad' = (bad \/ form \in KidBadForms)
+     /\ rare' = rare + Cost(f) /\ bad' = (bad \/ form \in KidBadForms) /\ Use({f})
      /\ UNCHANGED << nodes, phase, doc >>
 
 DeclFields(ver, enc, sa) ==
@@ -589,17 +594,19 @@ Finish(ch, cost) ==
   IN /\ phase = "build" /\ Len(stack) = 1 /\ Len(stack[1].kids) = 1
      /\ doc' = Tup(IF ch.rf THEN root \o decl ELSE decl \o root)
      /\ bad' = (bad \/ ch.ver \in {"v20", "int"} \/ ch.enc = "int")
+     /\ Use({ FinFeats(ch)[j] : j \in 1..4 })
      /\ phase' = "done" /\ stack' = << >> /\ rare' = 0 /\ nodes' = 0
 
 FinishBad(kd) ==
   /\ phase = "build" /\ Len(stack) = 1 /\ Len(stack[1].kids) = 0 /\ nodes = 0
   /\ Usable(kd) /\ rare + Cost(kd) <= MaxRare
-  /\ doc' = BadDoc(kd) /\ bad' = TRUE
+  /\ doc' = BadDoc(kd) /\ bad' = TRUE /\ Use({kd})
   /\ phase' = "done" /\ stack' = << >> /\ rare' = 0 /\ nodes' = 0
 
 Reset ==       \* simulation: next document
   /\ phase = "done"
   /\ stack' = << Bottom >> /\ rare' = 0 /\ nodes' = 0 /\ phase' = "build" /\ doc' = Null /\ bad' = FALSE
+  /\ used' = {}
 
 Next ==
   \/ \E c \in Budget : \E ch \in OpenByCost[c] : Open(ch, c)
@@ -674,5 +681,10 @@ DevAlts(v) ==
 
 Emit == Done =>
   PrintT(<< "REPLAY", ToJson([doc |-> doc, exp |-> Expect(doc), alts |-> DevAlts(doc)]) >>)
+
+(* the generator features a document was built from (vacuity: the driver      *)
+(* demands that every feature of the configuration occurs); a line of its own,*)
+(* so that the line above stays a function of the document                    *)
+EmitUsed == Done => PrintT(<< "REPLAY", ToJson([used |-> used]) >>)
 
 =============================================================================
